@@ -2,19 +2,28 @@
 """Print the prompt for a seeding sub-agent for property <id> (only the property text + worktree path)."""
 import json, sys
 pid = sys.argv[1]
+rnd = sys.argv[2] if len(sys.argv) > 2 else ''
 for l in open('/verif/properties.jsonl'):
     p = json.loads(l)
     if p['id'] == pid:
         break
-wt = '/tmp/seed-%s' % pid
-print("""You are a software engineer helping to evaluate a verification tool. You have your own scratch git worktree of the open-source project robhagemans/pcbasic (a pure-Python GW-BASIC interpreter) at %(wt)s (it is a worktree of a larger repository; work ONLY inside %(wt)s and /tmp/seed-out-%(pid)s; do not read or touch /repo or /verif or any other directory under /tmp). Run Python as `cd %(wt)s && /venv/bin/python ...` (pcbasic is imported from the worktree when you are in its root; the machine is offline).
+wt = '/tmp/seed-%s%s' % (pid, rnd)
+out = '/tmp/seed-out-%s%s' % (pid, rnd)
+mechs = p['anchors']['mechanism']
+focus = ''
+if rnd:
+    k = (ord(rnd[0]) - ord('a')) % len(mechs)
+    m = mechs[k]
+    focus = '\n  Focus: put your change in or around this mechanism of the implementation: %s (%s). Prefer a fault in state that persists between operations (a cache, a cursor, a flag, a saved/restored value, an index that must stay in step with another) over a local arithmetic slip.' % (m.get('name'), m.get('where'))
+
+print("""You are a software engineer helping to evaluate a verification tool. You have your own scratch git worktree of the open-source project robhagemans/pcbasic (a pure-Python GW-BASIC interpreter) at %(wt)s (it is a worktree of a larger repository; work ONLY inside %(wt)s and %(out)s; do not read or touch /repo or /verif or any other directory under /tmp). Run Python as `cd %(wt)s && /venv/bin/python ...` (pcbasic is imported from the worktree when you are in its root; the machine is offline).
 
 Here is a semantic property the project is supposed to satisfy:
 
   Title: %(title)s
   Statement: %(statement)s
   It must hold over: %(qtext)s
-  Relevant files: %(files)s
+  Relevant files: %(files)s%(focus)s
 
 Your task: craft ONE realistic change to pcbasic's source (a plausible bug a maintainer could introduce: an off-by-one, a wrong comparison, a dropped carry, a missing restore/reset, a stale cache, a cursor advanced too early, two cooperating sites that each look fine alone, ...) that BREAKS this property while the code still imports and the project's existing unit test suite still passes exactly as before. The breakage must need something SPECIFIC to manifest — a particular multi-step sequence of operations, an unusual or boundary input, a particular state reached only after earlier operations, a particular interleaving/event timing or crash point — not something that ordinary use or the simplest input would expose at once. Do not add dead code or special-case magic constants like `if x == 12345`; the change should look like an honest mistake or an over-eager "simplification/optimisation", at most ~10 changed lines, in non-test source files only.
 
@@ -22,10 +31,10 @@ Steps:
 1. Read the relevant code in the worktree and decide on the change.
 2. Before changing anything, run the pinned unit suite to get the baseline: `cd %(wt)s && /venv/bin/python -m pytest -q -p no:cacheprovider --timeout=900 --continue-on-collection-errors tests/unit 2>&1 | tail -5` (about 250 tests pass; some collection errors/failures are pre-existing and expected; one test, test_dos.py::DosTest::test_interactive_shell, is flaky under load — ignore it). Note the pass/fail counts.
 3. Make the change. Re-run the unit suite: the set of passing tests must be unchanged.
-4. Write a demonstration: a small standalone Python script /tmp/seed-out-%(pid)s/demo.py that uses the public pcbasic Session API (e.g. `from pcbasic import Session; s = Session(output_streams=None, input_streams=None); s.execute('...'); s.evaluate('...'); s.get_variable('A$')`, or internal modules if the property is about an internal mechanism) run from the worktree root, which exits 0 when the property holds for its scenario and exits 1 (printing what went wrong) when it does not. It must FAIL with your change applied and PASS on the unchanged code (verify both, using `git diff > /tmp/seed-out-%(pid)s/patch.diff; git apply -R /tmp/seed-out-%(pid)s/patch.diff; ...; git apply /tmp/seed-out-%(pid)s/patch.diff` — NEVER use `git stash`: the stash is shared between all worktrees of the repository and other people are working in sibling worktrees; also delete __pycache__ directories before each demo run).
-5. Save: /tmp/seed-out-%(pid)s/patch.diff (output of `git diff` in the worktree), /tmp/seed-out-%(pid)s/demo.py, and /tmp/seed-out-%(pid)s/meta.json with keys: property (\"%(pid)s\"), summary (one sentence: what was changed), needs (what specific input/sequence/state is needed for the breakage to manifest), files_changed, unit_suite_before, unit_suite_after (pass/fail counts), demo_fails_with_patch (true/false), demo_passes_without_patch (true/false).
+4. Write a demonstration: a small standalone Python script %(out)s/demo.py that uses the public pcbasic Session API (e.g. `from pcbasic import Session; s = Session(output_streams=None, input_streams=None); s.execute('...'); s.evaluate('...'); s.get_variable('A$')`, or internal modules if the property is about an internal mechanism) run from the worktree root, which exits 0 when the property holds for its scenario and exits 1 (printing what went wrong) when it does not. It must FAIL with your change applied and PASS on the unchanged code (verify both, using `git diff > %(out)s/patch.diff; git apply -R %(out)s/patch.diff; ...; git apply %(out)s/patch.diff` — NEVER use `git stash`: the stash is shared between all worktrees of the repository and other people are working in sibling worktrees; also delete __pycache__ directories before each demo run).
+5. Save: %(out)s/patch.diff (output of `git diff` in the worktree), %(out)s/demo.py, and %(out)s/meta.json with keys: property (\"%(pid)s\"), summary (one sentence: what was changed), needs (what specific input/sequence/state is needed for the breakage to manifest), files_changed, unit_suite_before, unit_suite_after (pass/fail counts), demo_fails_with_patch (true/false), demo_passes_without_patch (true/false).
 6. Leave the worktree with your change applied (uncommitted). Do not commit.
 
 Reply with a short summary (the change, why the unit tests do not notice it, what it takes to trigger it).""" % dict(
-    wt=wt, pid=pid, title=p['title'], statement=p['statement'], qtext=p['quantifier']['text'],
+    wt=wt, pid=pid, out=out, focus=focus, title=p['title'], statement=p['statement'], qtext=p['quantifier']['text'],
     files=', '.join(p['anchors']['files'])))
